@@ -400,6 +400,7 @@ func runC03(t *testing.T, c *choice.Stream, r *Result, opt RunOpt) {
 		srv := simnet.NewServer(cf.ServerRev, script)
 		conn := e.W.NewConn(srv)
 		HangJudge(e, r, conn, srv, cf.ServerRev)
+		conn.EmptyReads = c.Pick("emptyreads", 0, 0, 0, 60) // a transport may hand over nothing at all now and then
 		r.Cell = fmt.Sprintf("rev%d/comp%d/auto%v", cf.Negotiated(), cf.Comp, scs[0].auto)
 		var kinds [][]string
 		for _, rs := range scs {
